@@ -149,8 +149,16 @@ func (s *Translator) SetOptimizationPlan(plan optimize.Plan) {
 
 func (s *Translator) Enter(expression cypher.SyntaxNode) {
 	switch typedExpression := expression.(type) {
+	case *cypher.Comparison:
+		// `a < b <= c` means `a < b and b <= c` in Cypher. Emitting the partial comparisons as nested binary
+		// expressions would produce `a < b <= c`, which PostgreSQL rejects: comparison operators are
+		// non-associative.
+		if len(typedExpression.Partials) > 1 {
+			s.SetErrorf("chained comparisons are not supported: %d comparison operators in one expression", len(typedExpression.Partials))
+		}
+
 	case *cypher.RegularQuery, *cypher.SingleQuery, *cypher.PatternElement,
-		*cypher.Comparison, *cypher.Skip, *cypher.Limit, cypher.Operator, *cypher.ArithmeticExpression,
+		*cypher.Skip, *cypher.Limit, cypher.Operator, *cypher.ArithmeticExpression,
 		*cypher.NodePattern, *cypher.RelationshipPattern, *cypher.Remove, *cypher.Set,
 		*cypher.ReadingClause, *cypher.UnaryAddOrSubtractExpression, *cypher.PropertyLookup,
 		*cypher.Negation, *cypher.Where, *cypher.ListLiteral,
